@@ -299,3 +299,158 @@ class CrashModel(object):
             for path in openw:
                 v[path] = b""
             yield ("all-open-empty", v)
+
+
+# ---------------------------------------------------------------------------
+# OS-level recording (crash points INSIDE storage-layer methods)
+
+class _OsProxy(object):
+    """Stands in for the name `os` inside whoosh.filedb.filestore while a
+    transaction is recorded: every mutating OS call under the index root is
+    appended to the log when it returns, so 'the process died between two
+    system calls of ONE storage method' is a crash point like any other.
+    Everything else is delegated to the real module."""
+
+    def __init__(self, rec):
+        self._rec = rec
+        self._fds = {}
+
+    def __getattr__(self, name):
+        return getattr(os, name)
+
+    def open(self, path, flags, *a, **kw):
+        rel = self._rec.rel(path)
+        existed = os.path.exists(path)
+        fd = os.open(path, flags, *a, **kw)
+        if rel is not None and (flags & (os.O_WRONLY | os.O_RDWR | os.O_CREAT)):
+            if not existed or (flags & os.O_TRUNC):
+                self._rec.log.append(("create", rel))
+            else:
+                raise NotImplementedError("OS-level recorder: in-place open of existing %r for writing is not modelled" % rel)
+            self._fds[fd] = rel
+        return fd
+
+    def fdopen(self, fd, *a, **kw):
+        f = os.fdopen(fd, *a, **kw)
+        rel = self._fds.pop(fd, None)
+        if rel is not None:
+            return _RecFile(f, self._rec.log, rel)
+        return f
+
+    def close(self, fd):
+        rel = self._fds.pop(fd, None)
+        r = os.close(fd)
+        if rel is not None:
+            self._rec.log.append(("close", rel))
+        return r
+
+    def write(self, fd, data):
+        raise NotImplementedError("OS-level recorder: os.write is not modelled")
+
+    def remove(self, path, *a, **kw):
+        r = os.remove(path, *a, **kw)
+        rel = self._rec.rel(path)
+        if rel is not None:
+            self._rec.log.append(("delete", rel))
+        return r
+
+    unlink = remove
+
+    def rename(self, old, new, *a, **kw):
+        r = os.rename(old, new, *a, **kw)
+        ro, rn = self._rec.rel(old), self._rec.rel(new)
+        if ro is not None or rn is not None:
+            if ro is None or rn is None:
+                raise NotImplementedError("OS-level recorder: rename across the index root")
+            self._rec.log.append(("rename", ro, rn))
+        return r
+
+    replace = rename
+
+    def mkdir(self, path, *a, **kw):
+        r = os.mkdir(path, *a, **kw)
+        rel = self._rec.rel(path)
+        if rel:
+            self._rec.log.append(("mkdir", rel))
+        return r
+
+    def makedirs(self, path, *a, **kw):
+        existed = os.path.isdir(path)
+        r = os.makedirs(path, *a, **kw)
+        rel = self._rec.rel(path)
+        if rel and not existed:
+            self._rec.log.append(("mkdir", rel))
+        return r
+
+    def rmdir(self, path, *a, **kw):
+        r = os.rmdir(path, *a, **kw)
+        rel = self._rec.rel(path)
+        if rel:
+            self._rec.log.append(("rmdir", rel))
+        return r
+
+    def truncate(self, *a, **kw):
+        raise NotImplementedError("OS-level recorder: truncate is not modelled")
+
+
+class OsRecorder(object):
+    """with OsRecorder(root) as rec: st = rec.storage(); ... ; rec.log
+
+    The real FileStorage methods run unmodified (nothing is overridden except
+    lock(), which only adds marks); the names `os` and `open` of the module
+    whoosh.filedb.filestore are replaced for the duration."""
+
+    def __init__(self, root, supports_mmap=True):
+        self.root = os.path.abspath(root)
+        self.log = []
+        self.supports_mmap = supports_mmap
+        self._saved = None
+
+    def rel(self, path):
+        p = os.path.abspath(os.fspath(path))
+        if p == self.root:
+            return ""
+        if p.startswith(self.root + os.sep):
+            return p[len(self.root) + 1:]
+        return None
+
+    def _open(self, path, mode="r", *a, **kw):
+        rel = self.rel(path)
+        if rel is None or not any(c in mode for c in "wax+"):
+            return open(path, mode, *a, **kw)
+        if "a" in mode or "+" in mode and "w" not in mode:
+            raise NotImplementedError("OS-level recorder: open mode %r is not modelled" % mode)
+        f = open(path, mode, *a, **kw)
+        self.log.append(("create", rel))
+        return _RecFile(f, self.log, rel)
+
+    def __enter__(self):
+        from whoosh.filedb import filestore
+        if getattr(filestore, "os", None) is not os:
+            raise RuntimeError("seam whoosh.filedb.filestore.os not found / already patched")
+        self._saved = filestore
+        filestore.os = _OsProxy(self)
+        filestore.open = self._open
+        return self
+
+    def __exit__(self, *exc):
+        fs = self._saved
+        fs.os = os
+        try:
+            del fs.open
+        except AttributeError:
+            pass
+        return False
+
+    def storage(self):
+        rec = self
+
+        class _St(FileStorage):
+            def lock(self, name):
+                r = rec.rel(self._fpath(name))
+                return _RecLock(FileStorage.lock(self, name), rec.log, r)
+
+        return _St(self.root, supports_mmap=self.supports_mmap)
+
+    def mark(self, label):
+        self.log.append(("mark", label))
